@@ -6,7 +6,7 @@ V = os.path.dirname(os.path.dirname(os.path.abspath(__file__)))
 # id -> (technique, level text, level note, design ref)
 CLAIMED = {
  "C01": ("Lean 4 theorems over a statement-by-statement model of ParseLine and the accessors + the message grammar as an executable Spec + go/ast facts + differential correspondence on Spec-rendered messages",
-         "Machine-checked proofs that all five tag escapes are undone (unescape . escape = id for every value), that Text/Target/Public are consistent with the components of every line, that Copy is field-wise equal and that Raw is kept unchanged; the full round trip (parse (render m) = expected m for every well-formed m) is checked by correspondence on messages generated from the Spec's Msg type and rendered by the Lean driver, with `expected m` compared against the real ParseLine's output [the unbounded round-trip theorem is work in progress, see DESIGN.md]. Tied to the tree by the replacer-pair fact and the pinned bodies of ParseLine, parseUserHost, Copy, Text, Target, Public.",
+         "Machine-checked proof of the round trip parseLine (render m) = some (expected m) for EVERY well-formed message m (tags incl. key-only/empty/escaped values and duplicate keys, server and nick!user@host sources, any-case letter verbs and numerics, any number of middles with extra spaces, optional trailing, CTCP/ACTION rewriting) and every behaviour of ToUpper on non-ASCII input; plus unescape . escape = id, accessor consistency for every line, Copy equality, Raw unchanged. Tied to the tree by the replacer-pair fact, the pinned bodies of ParseLine, parseUserHost, Copy, Text, Target, Public, by a differential run on messages generated from the Spec's Msg type and rendered by the Lean driver (so the real parser is fed the theorem's `render m` and compared with `expected m`), and by delivering the same messages over an in-memory connection in several read chunkings to a foreground handler.",
          "Trusted: Lean kernel; extractor; harness + driver; Go's strings.Fields/TrimSpace/Index/SplitN as transcribed in lean/Goirc/Go/Strings.lean (Unicode white space recognised by encoding; argued exact in that file, validated on invalid UTF-8); strings.ToUpper on non-ASCII input is a parameter of the model (the harness supplies Go's value).",
          "6 (C01)"),
  "C02": ("Lean 4 total model of ParseLine/accessors with explicit guards + theorem that every line is rejected or has consistent accessors + bounded-exhaustive and random differential correspondence including panic/no-panic",
